@@ -379,6 +379,41 @@ def run(ctx):
                 g.random_walk = real_walk
             if words2 != words:
                 vio.append({"sig": "C16:random-walk-not-reproducible", "what": "two random_walk sessions differ", "replay": {"ruleset": rs, "n": n}})
+        # a long streak of walks that land on the Markov structure (which yields no honeyword) is an ordinary event for a ruleset
+        # trained with a low coverage: the session keeps walking until it HAS N words.  Scripted: W draws inside M's interval,
+        # then draws inside another structure's interval.
+        m_ix = [i for i, b in enumerate(g.base) if b["replacements"] == ["M"]]
+        o_ix = [i for i, b in enumerate(g.base) if "M" not in b["replacements"] and b["prob"] > 0]
+        if m_ix and o_ix and g.base[m_ix[0]]["prob"] > 0 and r % 2 == 0:
+            from lib_guesser.honeyword_session import HoneywordSession
+            _, cum = breakpoints(bws)
+
+            def mid(i):
+                lo = cum[i - 1] if i else 0.0
+                return lo + (cum[i] - lo) / 2
+            W = ctx.scale(150, 1500)
+            n = ctx.rng.randint(1, 4)
+            oi = ctx.rng.choice(o_ix)
+            draws = [mid(m_ix[0]), 0.5] * W
+            for _ in range(n):
+                draws += [mid(oi)] + [0.5] * len(g.base[oi]["replacements"])
+            got_w = []
+            oldp = g.print_guess
+            g.print_guess = got_w.append
+            script = Script(draws)
+            try:
+                try:
+                    with_script(script, lambda: common.quiet_call(HoneywordSession(g, "random_walk").run, limit=n))
+                    err = None
+                except Exception as e:     # noqa: BLE001
+                    err = "%s: %s" % (type(e).__name__, e)
+            finally:
+                g.print_guess = oldp
+            dist["scripted_markov_streaks"] = dist.get("scripted_markov_streaks", 0) + 1
+            if err or len(got_w) != n:
+                vio.append({"sig": "C16:count:after-markov-streak", "what": "session with limit %d after %d consecutive walks that landed on the Markov "
+                            "structure wrote %d words%s" % (n, W, len(got_w), " (%s)" % err if err else ""),
+                            "replay": {"ruleset": rs, "skip_brute": False, "streak": W, "n": n, "other": oi, "draws": []}})
         tbl_lit = common.clist([common.clist(["(%s, %d%%nat)" % (common.cfloat(p), k) for p, k in row]) if row else "(@nil (float * nat))" for row in table]) \
             if table else "(@nil (list (float * nat)))"
         bases_lit = common.clist(["(%s, %s)" % (common.cfloat(p), (common.clist(["%d" % v for v in vs]) + "%nat") if vs else "(@nil nat)") for p, vs in bases])
@@ -414,6 +449,27 @@ def replay(ctx, data):
     if "ruleset" not in inp or "draws" not in inp:
         return []
     sc = common.scratch()
+    if inp.get("streak"):
+        from lib_guesser.honeyword_session import HoneywordSession
+        g = impl_next.load_grammar(inp["ruleset"], sc)
+        _, cum = breakpoints([b["prob"] for b in g.base])
+        mi = [i for i, b in enumerate(g.base) if b["replacements"] == ["M"]][0]
+        oi, n, W = inp["other"], inp["n"], inp["streak"]
+
+        def mid(i):
+            lo = cum[i - 1] if i else 0.0
+            return lo + (cum[i] - lo) / 2
+        draws = [mid(mi), 0.5] * W
+        for _ in range(n):
+            draws += [mid(oi)] + [0.5] * len(g.base[oi]["replacements"])
+        got_w = []
+        g.print_guess = got_w.append
+        try:
+            with_script(Script(draws), lambda: common.quiet_call(HoneywordSession(g, "random_walk").run, limit=n))
+        except Exception:      # noqa: BLE001
+            pass
+        return [] if len(got_w) == n else [{"sig": "C16:count:after-markov-streak", "what": "limit %d after %d Markov walks: %d words" % (n, W, len(got_w)),
+                                             "replay": inp}]
     if inp.get("skip_brute"):
         import re as _re
         rs = inp["ruleset"]
